@@ -106,7 +106,7 @@ def theorem_names(prop):
     src = re.sub(r"--[^\n]*", "", src)
     ns = re.search(r"^namespace\s+(\S+)", src, re.M)
     prefix = (ns.group(1) + ".") if ns else ""
-    return [prefix + n for n in re.findall(r"^theorem\s+([A-Za-z0-9_'.]+)", src, re.M)]
+    return [prefix + n for n in re.findall(r"^theorem\s+([A-Za-z0-9_'.?!]+)", src, re.M)]
 
 
 def forbidden_tokens(prop):
